@@ -21,7 +21,9 @@ CLASS_MEMBERS = {"eq": ["eq", "ne", "lt", "gt", "le", "ge"], "cat": ["cat"], "ad
 NUMBERS = [0, 1, 12, 7, 1000000, 0.5, 1234.5678, 0.001, 1e-7, 2.5e-7, 123456789012345, 99.99, 1.25e20, 1e22, 3.0e16]
 # integer literals beyond 2^53: Numbers keeps them exactly in the decimal128 coefficient next to a double that is only close
 BIGINTS = [2 ** 53 + 1, 9999999999999999, 2 ** 63 - 1, 2 ** 60 + 1, 10 ** 18 + 1, 123456789012345678]
-STRINGS = ["abc", 'with "quote"', "comma, paren ) (", "", "ünï", "it's", "semi;colon", "{brace}", "a&b=c"]
+STRINGS = ["abc", 'with "quote"', "comma, paren ) (", "", "ünï", "it's", "semi;colon", "{brace}", "a&b=c",
+           # runs of quotes: every quote of the stored text is doubled in the formula text, wherever it stands
+           'a""b', '""', 'x"""', '"', '"lead', 'trail"', '""""']
 BAD_FUNCS = {"DATE"}
 
 
